@@ -125,7 +125,7 @@ def acceptTags (cs : Constraints) (hd st : String) (o : Obs) : String :=
       if hd == "none" then
         let complex := cs.any (fun c => termCount c > maxOldSize + 1)
         let always := allAre o.tcb (some true) && allAre o.mg (some true) && allAre o.ma (some true)
-        if complex && formatChecked tc cs == some .none && always && o.rt.all (· == some true)
+        if complex && format tc cs == .none && always && o.rt.all (· == some true)
         then s!"bad-eval no-header line-too-complex assignment={i}"
         else s!"bad-eval no-header unexpected assignment={i}"
       else s!"bad-eval constraint assignment={i}"
